@@ -309,7 +309,7 @@ def canon(rec):
 
 def state_invariants(rec):
     """-> list of (clause, detail); C06 clauses and C08 clauses (prefixed c08-)"""
-    probs = list(numbering_problems(rec))
+    probs = list(numbering_problems(rec)) + removed_feature_problems(rec)
     collections_ = (list(rec.get_protoclusters()) + list(rec.get_candidate_clusters()) + list(rec.get_subregions())
                     + list(rec.get_regions()))
     live = set(map(id, collections_))
@@ -367,12 +367,51 @@ def state_invariants(rec):
     return probs
 
 
+_EVER = {}      # id(record) -> every area/region object the record held at some point of the history that built it
+
+
+def _areas(rec):
+    return (list(rec.get_protoclusters()) + list(rec.get_candidate_clusters()) + list(rec.get_subregions()) + list(rec.get_regions()))
+
+
 def replay_history(circular, hist):
     ops = make_ops(circular)
     rec = W.make_record(BFS_L, circular)
+    ever = {}
     for name in hist:
         ops[name](rec)
+        for area in _areas(rec):
+            ever[id(area)] = area
+    _EVER.clear()           # only the most recently built record is looked at
+    _EVER[id(rec)] = (rec, list(ever.values()))
     return rec
+
+
+def removed_feature_problems(rec):
+    """a feature that was removed from the record must not be shown with a number (which now belongs to another feature or none)"""
+    probs = []
+    entry = _EVER.get(id(rec))
+    if not entry or entry[0] is not rec:
+        return probs
+    live = set(map(id, _areas(rec)))
+    getters = {"protocluster": (rec.get_protocluster_number, rec.get_protocluster), "cand_cluster": (rec.get_candidate_cluster_number, rec.get_candidate_cluster),
+               "subregion": (rec.get_subregion_number, rec.get_subregion), "region": (rec.get_region_number, rec.get_region)}
+    for area in entry[1]:
+        if id(area) in live or area.type not in getters:
+            continue
+        number_of, feature_of = getters[area.type]
+        try:
+            number = number_of(area)
+        except (ValueError, KeyError):
+            continue
+        try:
+            holder = feature_of(number)
+        except (ValueError, KeyError, IndexError):
+            holder = None
+        if holder is not area:
+            probs.append((f"removed-feature-still-numbered:{area.type}", f"{area.location} removed, still number {number}"
+                          + (f", which is {holder.location}" if holder is not None else "")))
+    return probs
 
 
 def bfs(circular, depth, res, which="c06"):
